@@ -940,11 +940,21 @@ func (env *SpecEnv) call(x *ECall) *Val {
 			}
 		}
 		r := c.eval(sf.Body)
-		if r.K == KBool && env.st.wfSink == nil && strings.Contains(r.S, "(forall ") && !strings.Contains(r.S, "q_") == false {
+		if (r.K == KInt || r.K == KBool) && len(r.S) > 160 && !hasBoundVar(r.S) && !strings.Contains(r.S, "(forall ") && !strings.Contains(r.S, "(exists ") {
+			// share large scalar results (e.g. the 35-argument 5-tuple key) instead of repeating the term
+			srt := "Int"
+			if r.K == KBool {
+				srt = "Bool"
+			}
+			rr := *r
+			rr.S = fx.sol.Define("sv_"+sf.Name, r.S, srt, fx.fresh)
+			return &rr
+		}
+		if r.K == KBool && env.st.wfSink == nil && strings.Contains(r.S, "(forall ") && !hasBoundVar(r.S) == false {
 			// share identical quantified predicates (same spec function, same arguments, same heap terms)
 			hasOuter := false
 			for _, v := range env.vars {
-				if v != nil && v.K == KInt && strings.HasPrefix(v.S, "q_") {
+				if v != nil && v.K == KInt && hasBoundVar(v.S) {
 					hasOuter = true
 				}
 			}
